@@ -262,13 +262,13 @@ def run(tier, seed, replay):
                 chk("coherent-analytic", np.abs(ca.full().ravel() - want).max() < 1e-12, f"coherent({N},{al},'analytic') entries are not the closed form")
             # with an offset: the closed-form entries n = offset .. offset + N - 1, also a window of a larger space
             for al2 in (al, -0.7, 1.1j, -0.3 - 0.2j):
-                for off in (1, 2, 3, 5):
+                for off in (1, 2, 3, 5, 20, 21, 23, 40):
                     for meth in ({}, {"method": "analytic"}):
                         cao = guarded(f"coherent({N},{al2},offset={off})", lambda: qutip.coherent(N, al2, offset=off, **meth), dim1=(N == 1))
                         if cao is None:
                             continue
                         want = np.array([np.exp(-abs(al2) ** 2 / 2) * al2 ** n / math.sqrt(math.factorial(n)) for n in range(off, off + N)])
-                        chk("coherent-analytic-offset", np.abs(cao.full().ravel() - want).max() < 1e-12,
+                        chk("coherent-analytic-offset", np.all(np.isfinite(cao.full())) and np.all(np.abs(cao.full().ravel() - want) <= 1e-10 * np.abs(want) + 1e-300),
                             f"coherent({N},{al2},offset={off},{meth}) entries are not the closed form e^(-|a|^2/2) a^n / sqrt(n!), n = {off}..{off + N - 1}")
                         big = qutip.coherent(N + off, al2, method="analytic").full().ravel()[off:]
                         chk("coherent-offset-window", np.abs(cao.full().ravel() - big).max() < 1e-12, f"coherent({N},{al2},offset={off}) is not the window of coherent({N + off},{al2})")
